@@ -115,6 +115,31 @@ func c08Fixed(c *Ctx) ([]*zr.Program, []string) {
 			zr.Show(zr.S("object"), zr.Member{Recv: zr.N("甲器"), Prop: "次"}, zr.Member{Recv: zr.N("甲器"), Prop: "记"}, zr.Member{Recv: zr.N("甲器"), Prop: "表"}),
 			zr.Return{E: zr.Bin{Op: "*", L: zr.N("果次"), R: intLit(8)}})
 	}
+	// a constructor that fails (too few arguments, or its body raises) inside a call that handles
+	// the failure: afterwards 其 in the calling method still denotes that method's own receiver
+	for _, fail := range []string{"arity", "throw", "fault"} {
+		var newE zr.Expr = zr.New{Class: "理", Args: []zr.Expr{intLit(1)}}
+		ctorBody := []zr.Stmt{zr.Set(zr.ThisProp{Prop: "名"}, zr.N("甲")), zr.Set(zr.ThisProp{Prop: "数"}, zr.N("乙"))}
+		switch fail {
+		case "throw":
+			newE = zr.New{Class: "理", Args: []zr.Expr{intLit(1), intLit(2)}}
+			ctorBody = append(ctorBody, zr.Throw{Class: "异常", Args: []zr.Expr{zr.S("ctor")}})
+		case "fault":
+			newE = zr.New{Class: "理", Args: []zr.Expr{intLit(1), intLit(0)}}
+			ctorBody = append(ctorBody, zr.Set(zr.ThisProp{Prop: "数"}, zr.Bin{Op: "/", L: intLit(1), R: zr.N("乙")}))
+		}
+		li := zr.ClassDef{Name: "理", Props: []zr.PropDef{{Name: "名", Val: zr.S("理")}, {Name: "数", Val: intLit(0)}}}
+		lictor := &zr.FuncDef{Name: "理", Ctor: true, Params: []string{"甲", "乙"}, Body: ctorBody}
+		try := &zr.FuncDef{Name: "试造", Body: []zr.Stmt{zr.LetS("物", newE), zr.Return{E: zr.S("made")}}, Catches: []zr.Catch{{Class: "异常", Body: []zr.Stmt{zr.Return{E: zr.S("败")}}}}}
+		chang := zr.ClassDef{Name: "厂", Props: []zr.PropDef{{Name: "名", Val: zr.S("厂")}}, Methods: []*zr.FuncDef{
+			{Name: "造", Body: []zr.Stmt{zr.LetS("果", zr.CallE("试造")), zr.Show(zr.S("this-after"), zr.N("果"), zr.ThisProp{Prop: "名"}), zr.Set(zr.ThisProp{Prop: "名"}, zr.S("新厂")), zr.Return{E: zr.ThisProp{Prop: "名"}}}},
+			{Name: "试", Body: []zr.Stmt{zr.LetS("物", newE), zr.Return{E: zr.S("made")}}, Catches: []zr.Catch{{Class: "异常", Body: []zr.Stmt{zr.Show(zr.S("caught-in-method")), zr.Return{E: zr.S("败")}}}}},
+		}}
+		add("obj/failed-ctor-handled/"+fail, li, lictor, try, chang, zr.LetS("甲厂", zr.New{Class: "厂"}), zr.LetS("乙厂", zr.New{Class: "厂"}),
+			zr.Show(zr.S("r1"), mc("甲厂", "造")), zr.Show(zr.S("names"), zr.Member{Recv: zr.N("甲厂"), Prop: "名"}, zr.Member{Recv: zr.N("乙厂"), Prop: "名"}),
+			zr.Show(zr.S("r2"), mc("乙厂", "造")), zr.Show(zr.S("names"), zr.Member{Recv: zr.N("甲厂"), Prop: "名"}, zr.Member{Recv: zr.N("乙厂"), Prop: "名"}),
+			zr.Show(zr.S("again"), zr.CallE("试造")))
+	}
 	for given := 0; given <= 3; given++ {
 		args := []zr.Expr{}
 		for i := 0; i < given; i++ {
